@@ -6,7 +6,7 @@ import networkx as nx
 
 from harness.common import *      # noqa
 from harness import common
-from symx.core import SR, SI
+from symx.core import SR, SI, approx
 
 setup = common.setup
 
@@ -68,6 +68,7 @@ def h_split(ctx, max_km, padding, fibre='scalar'):
     ref_coef = [float(x) for x in np.atleast_1d(by['f'].loss_coef_func(probe))]
     ref_cd_per_m = [float(x) for x in np.atleast_1d(by['f'].beta2(probe))]
     ref_lumped_db = sum(x['loss'] for x in by['f'].params.lumped_losses)
+    ref_latency = by['f'].params.latency
     try:
         split_fiber(g, by['f'], bounds, target)
         err = None
@@ -98,6 +99,10 @@ def h_split(ctx, max_km, padding, fibre='scalar'):
                   all(abs(a - b) <= 1e-9 * abs(b) for a, b in zip(cd, ref_cd_per_m)),
                   info=dict(info, fibre=fibre, error=err, loss_coef=coef, want=ref_coef))
     ctx.prove('total length preserved', eq(tot, L), info=info)
+    lat = 0
+    for fb in fibers:
+        lat = lat + fb.params.latency
+    ctx.prove('latencies of the spans add up to the latency of the original fibre', approx(lat, ref_latency, 1e-9), info=info)
     chain = list(nx.shortest_path(g, by['a'], by['b']))
     ctx.prove('spans form a chain between the original neighbours', len(chain) == n + 2 and all(g.in_degree(x) == 1 and g.out_degree(x) == 1 for x in fibers))
     ctx.prove('unique names', len({x.uid for x in g.nodes()}) == g.number_of_nodes())
